@@ -102,6 +102,16 @@ def check_values(t, pid="C05"):
             raise Violation(pid, f"trial {t.trial_id}: value {p.name}={v!r} outside the domain of {p}", {"tag": "domain"})
 
 
+def complete_defaults(vals, specs):
+    """fill entries that are active under `vals` but absent (declared after the trial ran) with their defaults"""
+    for s in specs:
+        if s["name"] in vals:
+            continue
+        if all(pn in vals and any(same(vals[pn], w) for w in pv) for pn, pv in s["conds"]):
+            vals[s["name"]] = gen.build_hp(s).default
+    return vals
+
+
 def scenario(sseed, mode):
     kt = impl()
     R = random.Random(sseed)
@@ -109,7 +119,7 @@ def scenario(sseed, mode):
     tags = collections.Counter()
     specs = gen.rand_specs(R, finite=True, samename=(mode == "samename"), maxdepth=R.choice([1, 2, 3]), top=(1, 3))
     ref = enumerate_space(specs)
-    if len(ref) > 400:
+    if len(ref) > (60 if mode == "discover" else 400):
         specs = specs[:2]
         specs = [s for s in specs if all(any(q["name"] == c[0] for q in specs) for c in s["conds"])]
         ref = enumerate_space(specs)
@@ -127,6 +137,31 @@ def scenario(sseed, mode):
         aborted = False
         steps = 0
         disc_n = [0]
+        # discover mode, uniform flavour: every trial's run declares the same late entries (HyperModel.fit style, or a
+        # conditional scope opened only there) - the final space is then well defined and exactly-once coverage is checked
+        uniform = mode == "discover" and R.random() < 0.6
+        late = []
+        if uniform:
+            tops = [s_ for s_ in specs if not s_["conds"]]
+            for j in range(R.randint(1, 2)):
+                cond = None
+                if R.random() < 0.5:
+                    par = R.choice(tops)
+                    pv = list(gen.build_hp(par).values)
+                    cond = (par["name"], [R.choice(pv)])
+                late.append((f"u{j}", R.choice(["bool", "int", "choice"]), cond))
+            tags["uniform"] += 1
+
+        def declare_late(hps):
+            import contextlib
+            for nm, kind, cond in late:
+                with (hps.conditional_scope(cond[0], cond[1]) if cond else contextlib.nullcontext()):
+                    if kind == "bool":
+                        hps.Boolean(nm)
+                    elif kind == "int":
+                        hps.Int(nm, 0, 2)
+                    else:
+                        hps.Choice(nm, ["p", "q", "r"], default="q")
         while steps < 6000 and not aborted and (hold or len(stopped) < len(tun)):
             steps += 1
             w = R.choice(tun)
@@ -142,7 +177,10 @@ def scenario(sseed, mode):
                     t.status = "COMPLETED"
                 else:
                     t.status = {"INV": "INVALID", "FAIL": "FAILED"}[oc]
-                if mode == "discover" and R.random() < 0.3 and disc_n[0] < 3:
+                if uniform:
+                    declare_late(t.hyperparameters)
+                    tags["discovered"] += 1
+                elif mode == "discover" and R.random() < 0.3 and disc_n[0] < 3:
                     disc_n[0] += 1
                     nm = f"n{disc_n[0]}"
                     try:
@@ -215,6 +253,19 @@ def scenario(sseed, mode):
                 dup = [k for k, c in got.items() if c > 1]
                 if dup:
                     raise Violation("C09", f"combination tried twice under discovery: {dup[0]}", {"tag": "duplicate", "mode": mode})
+                # coverage of the space as it stands at the end: every trial's final values (entries it never saw
+                # at their defaults - that is what its build function used) against the enumeration of the final space
+                fspecs = gen.specs_of(o.hyperparameters)
+                fref = enumerate_space(fspecs) if uniform else []
+                if uniform and len(fref) <= 3000:
+                    fin = collections.Counter(canon(complete_defaults(dict(tr.hyperparameters.values), fspecs)) for tr in o.trials.values())
+                    want = collections.Counter(canon(v) for v in fref)
+                    tags["discover-coverage-checked"] += 1
+                    if fin != want:
+                        missing = list((want - fin).keys())[:2]
+                        extra = list((fin - want).keys())[:2]
+                        raise Violation("C09", f"grid with discovery ran {len(o.trials)} trials for {len(fref)} combinations of the final space; missing {missing} extra/duplicate {extra}",
+                                        {"tag": "coverage", "mode": mode})
         doc = {"suite": "grid", "seed": sseed, "mode": mode, "combinations": len(ref), "workers": len(tun), "tags": dict(tags)}
     return lines, expect, doc, tags
 
